@@ -90,7 +90,7 @@ var qualifierChains = []string{":string", ":INT32", ":INT64", ":UINT32", ":UINT6
 func (g *gen) looseStatement(ind string) []string {
 	h := g.h
 	w := func() string { return vh.Pick(h, g.vocab) }
-	switch c := h.Rng.IntN(30); {
+	switch c := h.Rng.IntN(34); {
 	case c < 2:
 		return []string{ind + "required {", ind + "}"}
 	case c < 4:
@@ -133,8 +133,16 @@ func (g *gen) looseStatement(ind string) []string {
 		return []string{ind + "field extra" + vh.Pick(h, []string{"", " !", " ?"}) + " " + vh.Pick(h, typeWordsAll) + vh.Pick(h, append([]string{"", "", ""}, qualifierChains...))}
 	case c < 29:
 		return []string{ind + "option extra " + vh.Pick(h, typeWordsAll)}
-	default:
+	case c < 30:
 		return []string{ind + "ref = foo.v1.Bar"}
+	case c < 32: // the second member of a proto oneof (ObjectField.schema, EntityKey.type, KeyFormat, Field.type, RootElement …)
+		return []string{ind + vh.Pick(h, []string{"ref.schema = \"Other\"", "object.name = \"Other\"", "oneof.name = \"Other\"", "enum.name = \"Other\"",
+			"foreign = \"a.v1.B\"", "primary = true", "entity.primaryKey = true", "entity.foreignKey.entity = \"x\"", "schema.bool.rules.const = true",
+			"schema.string.format = \"x\"", "type.publish.messages.name = \"X\"", "type.upsert.entityName = \"x\""})}
+	default:
+		k := vh.Pick(h, []string{"format.uuid", "format.id62", "format.informal", "format.custom", "schema.object", "schema.string", "items.bool", "itemSchema.key",
+			"type.reqres", "auth.none", "auth.cookie", "auth.custom", "elements.entity", "schemas.oneof", "object", "enum", "oneof"})
+		return []string{ind + k + " {", ind + "}"}
 	}
 }
 
